@@ -85,19 +85,31 @@ namespace lang
             v.data_ = std::make_unique<value_type[]>(v.capacity_);
         }
 
-        constexpr fixed_vector operator=(const fixed_vector& v)
+        constexpr fixed_vector& operator=(const fixed_vector& v)
         {
-            return fixed_vector(v);
+            if (this != &v)
+            {
+                *this = fixed_vector(v);
+            }
+
+            return *this;
         }
 
-        constexpr fixed_vector operator=(fixed_vector&& v)
+        constexpr fixed_vector& operator=(fixed_vector&& v)
         {
-            return fixed_vector(std::move(v));
+            // the moved-from vector stays usable: it takes over the old contents
+            std::swap(data_, v.data_);
+            std::swap(size_, v.size_);
+            std::swap(capacity_, v.capacity_);
+
+            return *this;
         }
 
-        constexpr fixed_vector operator=(const std::initializer_list<value_type>& l)
+        constexpr fixed_vector& operator=(const std::initializer_list<value_type>& l)
         {
-            return fixed_vector(l.size(), l);
+            *this = fixed_vector(l.size(), l);
+
+            return *this;
         }
 
         ~fixed_vector() = default;
